@@ -133,6 +133,20 @@ class Monitor:
         f = line.split(";")
         for kind, text in roundtrip(nodes, self.s.gateway.persistence, self.vfs):
             viols.append((f"C13|{kind}", f"[{self.version}] after line {line!r} registry {nodes!r}: {text}"[:900], None))
+        if not viols and nodes:
+            # the saving object itself reads the file back into its (emptied) registry, on a copy of the world
+            try:
+                twin = bfs.fork(self)
+                want = registry_view(twin.s.gateway.nodes)
+                twin.s.gateway.nodes.clear()
+                kind, val = pers.run(twin.s.gateway.persistence.load, twin.vfs)
+                got = registry_view(twin.s.gateway.nodes)
+                if kind != "ok":
+                    viols.append((f"C13|same-object-load-failed:{type(val).__name__}", f"[{self.version}] after line {line!r}: the saving Persistence object cannot load its own file: {val!r}", None))
+                elif got != want:
+                    viols.append(("C13|same-object-load-differs", f"[{self.version}] after line {line!r}: the saving Persistence object loaded {got} into its emptied registry, saved registry was {want}"[:900], None))
+            except core.HarnessError:
+                raise
         return viols
 
     def key(self):
